@@ -20,7 +20,7 @@ ASSUMPTIONS = [
     "send_request / build_http_sender (hyper client plumbing) are outside verus!{}: the write primitive of the agent's own calls, reached only through stubs whose precondition is the signed request",
 ]
 FN_PROPS = {
-    "should_skip_sig": ["C04"], "compute_signature": ["C04"], "as_sig_input": ["C04"], "request_to_sign_input": ["C04"],
+    "should_skip_sig": ["C04", "C15"], "compute_signature": ["C04"], "as_sig_input": ["C04"], "request_to_sign_input": ["C04"],
     "headers_to_canonicalized_string": ["C04"], "get_path_and_canonicalized_parameters": ["C04"],
     "build_request": ["C04", "C10"], "get": ["C04", "C10"],
     "WireServerClient::get_goalstate": ["C10"], "WireServerClient::get_shared_config": ["C10"], "ImdsClient::get_imds_instance_info": ["C10"],
@@ -586,7 +586,7 @@ def build(u):
                 e9=[("hyper::Method::PUT", "all", "", "", "hyper::Method", "    ensures method_text(r) == \"PUT\"@,", dict(name="vx_e9_method_put", local=True)),
                     ("hyper::Method::POST", "all", "", "", "hyper::Method", "    ensures method_text(r) == \"POST\"@,", dict(name="vx_e9_method_post", local=True))],
                 contract="""
-        ensures r == skip_spec(*method, *relative_uri),  // @C04.should_skip_sig.exactly_the_two_documented_uploads
+        ensures r == skip_spec(*method, *relative_uri),  // @C04+C15.should_skip_sig.exactly_the_two_documented_uploads
 """)
 
     # ---- C10: the key keeper's shared state as the signing sites see it: ONE actor message per wrapper call ----
